@@ -233,9 +233,11 @@ def ctorsOfType (fuel : Nat) (reg : St) (ty : Node) : List Ctor :=
     | .mk .tsIntersection _ [.mk .list _ ts] => ts.foldl (fun acc t => ctorUnion acc (ctorsOfType fuel reg t)) []
     | .mk .tsIndexed _ [objT, idxT] =>
       -- array / tuple / `[string]` indexing: as the model reads it (checked against the code by the correspondence)
+      -- (an access nothing is known about - an imported object type, a `keyof` index - admits no check at all: the empty list
+      --  would be a check that NO value passes)
       let viaModel := match resolveIndexed FUEL reg objT idxT with
-        | (some t, _) => ctorsOfType fuel reg t
-        | (none, _) => []
+        | (some t, _) => (match ctorsOfType fuel reg t with | [] => [.anyValue] | cs => cs)
+        | (none, _) => [.anyValue]
       -- property indexing `T['k']`, `T['a' | 'b']`: the union of the types of the SELECTED declared properties of T —
       -- T read by `propsOfType`, i.e. own and inherited members, through aliases, intersections and utility wrappers
       -- array / tuple indexing: `T[][number]`, `T[][0]` and `Array<T>[number]` are T; `[A, B][1]` is B; `[A, B][number]` is A | B
